@@ -81,7 +81,8 @@ def _compute(ctx, suf, entry, monitor_kind, log=None):
             st.env[(STATE, ('uri',))] = ('a', URI, ())
         m.push_frame(st, fname, mkargs(m), None, False, None)
     mon = DfaMonitor(dfa)
-    res = explore(ctx, suf, fname, setup, mon, dfa.class_of, nul=nul, log=log)
+    workers = int(os.environ.get('E1_WORKERS', '12'))
+    res = explore(ctx, suf, fname, setup, mon, dfa.class_of, nul=nul, log=log, workers=workers)
     al = res.alphabet
     finals = []
     for (m, st, val, nid) in res.finals:
@@ -174,9 +175,64 @@ def get_many(jobs):
     """jobs: list of (suffix, entry, monitor kind); explored in parallel processes; returns dict"""
     from concurrent.futures import ProcessPoolExecutor
     out = {}
+    big = sum(1 for j in jobs if j[1] != 'ip4')
+    os.environ['E1_WORKERS'] = str(max(1, 14 // max(1, big)))
     with ProcessPoolExecutor(max_workers=min(12, len(jobs))) as ex:
         for suf, entry, err, r in ex.map(_worker, jobs):
             if err:
                 raise AnalysisBroken('E1 exploration %s/%s: %s' % (entry, suf, err))
             out[(suf, entry)] = r
     return out
+
+
+# ------------------------------------------------------------------ thin wrappers (quick tier)
+
+WRAPPERS = {
+    # entry -> (callee base name, expected arguments of the callee)
+    'single': ('uriParseSingleUriExMm', [('a', URI, ()), ('p', 0), END, ('a', ERRPOS, ()), NULL]),
+    'single-ex': ('uriParseSingleUriExMm', [('a', URI, ()), ('p', 0), END, ('a', ERRPOS, ()), NULL]),
+    'single-ex-nul': ('uriParseSingleUriExMm', [('a', URI, ()), ('p', 0), END, ('a', ERRPOS, ()), NULL]),
+    'state': ('uriParseUriEx', [('a', STATE, ()), ('p', 0), END]),
+    'state-ex': ('uriParseUriExMm', [('a', STATE, ()), ('p', 0), END, NULL]),
+}
+TOKEN = ('f', '<result of the callee>')
+
+
+def wrapper_check(ctx, suf, entry):
+    """the entry point forwards (first, afterLast) = the caller's range or (text, text + strlen(text)) and the
+    other arguments unchanged to the callee and returns its result unchanged; decided by interpreting the
+    wrapper with the callee replaced by an opaque result token"""
+    from .e1 import Runner, St, Alphabet, Finding
+    from .e1explore import make_summaries, NullMonitor, _explore_once, reachable_interpreted
+    base, mkargs, nul, where = ENTRIES[entry]
+    callee, expect = WRAPPERS[entry]
+    fname = base + suf
+    seen_args = []
+
+    def handler(m, st, ins, args):
+        seen_args.append((tuple(args), ins.loc))
+        return TOKEN
+    summaries = make_summaries(suf)
+    summaries[callee + suf] = handler
+    funcs = reachable_interpreted(ctx.irp, fname, summaries)
+    al = Alphabet([set(Alphabet.all_symbols(suf))], suf)
+    mach = Runner(ctx, suf, al, funcs, summaries, nul_terminated=nul)
+
+    def setup(m, st):
+        if where == 'STATE':
+            st.env[(STATE, ('uri',))] = ('a', URI, ())
+        m.push_frame(st, fname, mkargs(m), None, False, None)
+    res = _explore_once(mach, fname, setup, NullMonitor(), 10000)
+    problems = []
+    for f, nid, m in res.findings:
+        problems.append('%s at %s' % (f.detail, fmt_loc(f.loc)))
+    if not seen_args:
+        problems.append('%s is never called' % (callee + suf))
+    for a, loc in seen_args:
+        if list(a) != expect:
+            problems.append('%s called with %r, expected %r (at %s)' % (callee + suf, a, expect, fmt_loc(loc)))
+    rets = set(v for (_m, _st, v, _nid) in res.finals)
+    if rets != {TOKEN}:
+        problems.append('returns %r instead of the callee result on every path' % (sorted(rets, key=repr),))
+    return {'entry': entry, 'function': fname, 'callee': callee + suf, 'ok': not problems, 'problems': problems,
+            'states': res.states, 'loc': ctx.irp.funcs[fname].loc, 'functions': funcs}
